@@ -75,4 +75,8 @@ def run(ctx):
             ctx.count_case((tr["id"], len(e["post"]["inl"]), repr(e)), nontrivial=True)
     ctx.sample({"mode": "B", "trace": traces[0]["id"], "n": traces[0]["n"], "first_events": traces[0]["events"][:3]})
     trace.validate(ctx, "Trace_RVLinks", traces, "c07_hist", canaries=canaries)
+    # modules that enter a project as CLONES of linked modules (Module.clone() of an attached module is a free module without
+    # links; attached, it is linked only by later requests): the composed workspace model, focus "clones", simulated and replayed
+    from .. import system
+    system.simulate_and_replay(ctx, 150 if q else 3000, 12 if q else 18, nm=6, np_=1, focus="clones")
     ctx.exhaustive = False
